@@ -472,3 +472,134 @@ func RootOf(v ssa.Value) ssa.Value {
 	}
 	return v
 }
+
+// AccessPath follows loads / field selections back to the base value and returns the
+// field names walked, outermost first: for `req.Object.ObjectId.Value` it returns
+// (req, ["Object","ObjectId","Value"]). Index/slice steps are skipped.
+func AccessPath(v ssa.Value) (ssa.Value, []string) { return AccessPathM(nil, v) }
+
+// AccessPathM is AccessPath that also sees through local memory cells (spilled
+// parameters / locals captured by closures) using mr.
+func AccessPathM(mr *MemReach, v ssa.Value) (ssa.Value, []string) {
+	var rev []string
+	for i := 0; i < 32; i++ {
+		if mr != nil {
+			v = mr.Canon(v)
+		}
+		switch x := v.(type) {
+		case *ssa.FieldAddr:
+			rev = append(rev, fieldShort(x.X.Type(), x.Field))
+			v = x.X
+		case *ssa.Field:
+			rev = append(rev, fieldShort(x.X.Type(), x.Field))
+			v = x.X
+		case *ssa.IndexAddr:
+			v = x.X
+		case *ssa.Index:
+			v = x.X
+		case *ssa.Slice:
+			v = x.X
+		case *ssa.UnOp:
+			if x.Op != token.MUL {
+				goto done
+			}
+			v = x.X
+		case *ssa.MakeInterface:
+			v = x.X
+		case *ssa.ChangeInterface:
+			v = x.X
+		case *ssa.ChangeType:
+			v = x.X
+		case *ssa.Convert:
+			v = x.X
+		default:
+			goto done
+		}
+	}
+done:
+	for i, j := 0, len(rev)-1; i < j; i, j = i+1, j-1 {
+		rev[i], rev[j] = rev[j], rev[i]
+	}
+	return v, rev
+}
+
+func fieldShort(t types.Type, idx int) string {
+	if pt, ok := t.Underlying().(*types.Pointer); ok {
+		t = pt.Elem()
+	}
+	st, ok := t.Underlying().(*types.Struct)
+	if !ok || idx >= st.NumFields() {
+		return "?"
+	}
+	return st.Field(idx).Name()
+}
+
+// ResolveFreeVar maps a closure's free variable to the value bound at the (unique)
+// MakeClosure site in the parent; if the binding is a local cell with a single store,
+// the stored value is returned.
+func ResolveFreeVar(fv *ssa.FreeVar) ssa.Value {
+	fn := fv.Parent()
+	par := fn.Parent()
+	if par == nil {
+		return nil
+	}
+	idx := -1
+	for i, x := range fn.FreeVars {
+		if x == fv {
+			idx = i
+		}
+	}
+	for _, b := range par.Blocks {
+		for _, in := range b.Instrs {
+			mc, ok := in.(*ssa.MakeClosure)
+			if !ok || mc.Fn != fn || idx < 0 {
+				continue
+			}
+			bv := mc.Bindings[idx]
+			if al, ok := bv.(*ssa.Alloc); ok {
+				var st *ssa.Store
+				n := 0
+				for _, ref := range *al.Referrers() {
+					if s, ok := ref.(*ssa.Store); ok && s.Addr == al {
+						st = s
+						n++
+					}
+				}
+				if n == 1 {
+					return st.Val
+				}
+				return nil
+			}
+			return bv
+		}
+	}
+	return nil
+}
+
+// RootParam returns the index of the parameter v is rooted at (through field/index/
+// deref chains, spilled parameters and address-taken copies of value receivers), or -1.
+func RootParam(fn *ssa.Function, v ssa.Value) int {
+	for i := 0; i < 8; i++ {
+		root := RootOf(v)
+		if pi := ParamIndex(fn, root); pi >= 0 {
+			return pi
+		}
+		al, ok := root.(*ssa.Alloc)
+		if !ok || al.Referrers() == nil {
+			return -1
+		}
+		var st *ssa.Store
+		n := 0
+		for _, ref := range *al.Referrers() {
+			if s, ok := ref.(*ssa.Store); ok && s.Addr == al {
+				st = s
+				n++
+			}
+		}
+		if n != 1 {
+			return -1
+		}
+		v = st.Val
+	}
+	return -1
+}
